@@ -112,7 +112,9 @@ def stepCase (cfg : Config) (a : Acc) (op : Op) (io : IObs) : Acc :=
 /-- The idle timeout token: `-` none, `<ms>`, or `u<µs>` for a timeout below the model's 1 ms tick: every
     tick then outlasts it, which is what 1 ms (a connection expires once it was idle for longer) says too. -/
 def idleTok (t : String) : Option Nat :=
-  if t == "-" then none else if t.startsWith "u" then some 1 else some (natTok t)
+  if t == "-" then none else if t.startsWith "u" then some 1
+  -- `Duration::MAX`: longer than any history
+  else if t == "max" then some (10 ^ 30) else some (natTok t)
 
 /-- `pool <idleTimeout|-> <maxIdle> <cap> ; <op> ; … | <obs> ; …` -/
 def driverLine (inp obs : List String) : Bool × Bool × String × String :=
